@@ -126,7 +126,17 @@ let () = register "walk" (fun ic ->
       let r = (try Some (if mode = "strict" then dw_walk bytes else dw_walk_report bytes) with Stack_overflow -> None) in
       (match r with
        | None -> print_endline "ERR walker-stack-overflow 0"
-       | Some (DwErr (c, off)) -> print_endline (Printf.sprintf "ERR %s %s" (check_name c) (dec_of_n off))
+       | Some (DwErr (c, off)) ->
+         (* report / dump mode: a structural error must not hide payload_prev_length mismatches (both are reported) *)
+         let ppl = if mode = "strict" then "" else
+           (try (match dw_scan (dw_len bytes) sIZEOF_file_header (skipn (N.to_nat sIZEOF_file_header) bytes) with
+                 | DwOk chunks ->
+                   " ppl=[" ^ String.concat " " (List.map (fun ((((o, t), s), e), pe) ->
+                     Printf.sprintf "%s:%s:%s:%s:%d" (dec_of_n o) (dec_of_n t) (dec_of_n s) (dec_of_n e) (if pe then 1 else 0))
+                     (dw_ppl_mismatches N0 true chunks)) ^ "]"
+                 | DwErr _ -> "")
+            with _ -> "") in
+         print_endline (Printf.sprintf "ERR %s %s%s" (check_name c) (dec_of_n off) ppl)
        | Some (DwOk w) ->
          let tags = Hashtbl.create 32 in
          List.iter (fun c -> let t = int_of_n_fast c.dw_hdr.fm_tag in
